@@ -609,15 +609,16 @@ impl DefaultFunction {
                 let arg2 = args[1].unwrap_integer()?;
                 let arg3 = args[2].unwrap_byte_string()?;
 
+                // An offset or a length beyond `usize` is beyond any byte string: clamp, don't panic.
                 let skip: usize = if arg1.lt(&0.into()) {
                     0
                 } else {
-                    arg1.try_into().unwrap()
+                    arg1.try_into().unwrap_or(usize::MAX)
                 };
                 let take: usize = if arg2.lt(&0.into()) {
                     0
                 } else {
-                    arg2.try_into().unwrap()
+                    arg2.try_into().unwrap_or(usize::MAX)
                 };
 
                 let ret: Vec<u8> = arg3.iter().skip(skip).take(take).cloned().collect();
